@@ -534,6 +534,29 @@ def r3(ctx: Ctx, roles) -> None:
         ctx.ob("C09.R3", rep, "records the reported error itself", len(a) == 1 and isinstance(a[0], ast.Name) and a[0].id in rep.param_names(), f"{[norm(x) for x in a]}")
     # readers
     readers = {fn.qualname for fn in ctx.repo.funcs_in("connection") for n in own_nodes(fn.node) if isinstance(n, ast.Attribute) and n.attr == "_fatal_exception" and isinstance(n.ctx, ast.Load)}
+    # ... and in the closer the connect-phase interrupt is triggered before the frame helper is closed: closing the
+    # helper fails a pending readiness wait with a generic "connection closed"; wake-ups run in FIFO order (M2), so
+    # whichever is queued first decides whether the connecting task sees the recorded cause or the generic error
+    from ..futures import completion_sites
+
+    closer = roles.closer
+    gcl = cfg_of(ctx, closer)
+
+    def interrupts(fn, depth=0) -> bool:
+        return any("connect_future" in norm(c.func.value) for c in completion_sites(fn))
+
+    helper_close = []
+    intr = []
+    for n in gcl.reachable():
+        for c in node_calls(n):
+            fs = res.callees(closer, c).funcs
+            if any(f.cls is not None and f.cls.name in ("APIFrameHelper", "APINoiseFrameHelper", "APIPlaintextFrameHelper") and f.name == "close" for f in fs):
+                helper_close.append(n)
+            if any(f.cls is roles.conn and interrupts(f) for f in fs) or ("connect_future" in norm(c.func) and isinstance(c.func, ast.Attribute) and c.func.attr in ("set_result", "set_exception")):
+                intr.append(n)
+    evi = occurred_before(gcl, lambda n: ["interrupt"] * (n in intr))
+    n_intr = len({id(n.ast) for n in intr})
+    ctx.ob("C09.R3", closer, "the closer interrupts the connect phases before it closes the frame helper", bool(helper_close) and n_intr >= 2 and all("interrupt" in evi.get(n, frozenset()) for n in helper_close) and not [n for n in intr if any(h.ast is not None and _before(gcl, h, n) for h in helper_close)], f"{n_intr} interrupt site(s), {len(helper_close)} helper close site(s): closing the helper first queues the generic 'connection closed' of the readiness wait ahead of the interrupt - the connecting task reports that instead of the recorded first cause")
     # first cause also means: a framing error already visible in the buffered bytes is recorded when those
     # bytes are processed, not after the socket error that follows (requires-encryption must not be masked)
     from .c04 import preamble_before_giveup
@@ -542,3 +565,20 @@ def r3(ctx: Ctx, roles) -> None:
     early = preamble_before_giveup(ctx, pdr)
     ctx.ob("C09.R3", pdr, "a wrong framing marker is reported as soon as its byte is buffered (before any give-up return)", not early, f"return at {early[:2]} precedes the preamble test: the EOF/reset that follows becomes the recorded first cause")
     ctx.ob("C09.R3", "connection:APIConnection", "closer and wrapper read the recorded cause", {roles.closer.qualname, "APIConnection._wrap_fatal_connection_exception"} <= readers, f"readers: {sorted(readers)}")
+
+
+def _before(g, a, b) -> bool:
+    """Node a can be executed before node b on some normal path (b reachable from a)."""
+    seen = {a}
+    todo = [a]
+    while todo:
+        n = todo.pop()
+        for l, s_ in n.succ:
+            if l == "exc" or s_ in seen:
+                continue
+            if s_ is b:
+                return True
+            seen.add(s_)
+            todo.append(s_)
+    return False
+
